@@ -232,16 +232,18 @@ package nutsdb
 //@   assumed sparse mode: loads the bucket key ranges from meta/bucket/*.meta
 //@   modifies entries(db.bucketMetas)
 //@ func DB.buildIndexes
-//@   requires applicable(db)
+//@   requires applicable(db) && nodesOK(nil) && treesOK(db)
+//@   ensures[C20] nodesOK(nil)
 //@   requires db != nil && db.BPTreeKeyEntryPosMap != nil && db.ActiveCommittedTxIdsIdx != nil && db.BPTreeIdx != nil && db.ActiveBPTreeIdx != nil
 //@   ensures fsMut >= old(fsMut)
 //@   modifies everything
 //@   safety[C20] panics
 //@ func NewTree
-//@   ensures fresh(result)
+//@   ensures fresh(result) && result.root == nil
+//@   ensures forall t *BPTree :: allocated(t) ==> old(allocated(t)) || t == result
 //@   modifies nothing
 //@ func Open
-//@   requires zset.zsHeap()
+//@   requires zset.zsHeap() && nodesOK(nil)
 //@   ensures[C22] result1 == nil ==> !modeMismatch(opt.EntryIdxMode, opt.Dir)
 //@   ensures[C22] modeMismatch(opt.EntryIdxMode, opt.Dir) && dirListable(opt.Dir) ==> result1 != nil && result0 == nil && fsMut <= old(fsMut) + 1
 //@   modifies everything
@@ -344,7 +346,7 @@ package nutsdb
 //@ func BPTree.WriteNodes
 //@   assumed writes the node file of a sealed segment (BFS over the tree, package-level queue); sync behaviour is not verified here
 //@   ensures syncEnable ==> unsynced == old(unsynced)
-//@   modifies alltype(Node), alltype(BPTree), queue, unsynced
+//@   modifies all(Node.Next), queue, unsynced
 //@ func BPTreeRootIdx.Persistence
 //@   assumed writes the root index record through the OS
 //@   ensures syncEnable ==> unsynced == old(unsynced)
@@ -364,7 +366,8 @@ package nutsdb
 //@   ensures tx.db.opt.EntryIdxMode == HintBPTSparseIdxMode ==> tx.db.ActiveBPTreeIdx != nil && tx.db.ActiveCommittedTxIdsIdx != nil
 //@   ensures result != nil ==> tx.db.ActiveFile == old(tx.db.ActiveFile) || tx.db.ActiveFile == nil
 //@   modifies tx.db.MaxFileID, tx.db.ActiveFile, tx.db.BPTreeRootIdxes, elems(tx.db.BPTreeRootIdxes), tx.db.BPTreeKeyEntryPosMap, tx.db.ActiveBPTreeIdx, tx.db.ActiveCommittedTxIdsIdx,
-//@        entries(tx.ReservedStoreTxIDIdxes), alltype(Node), alltype(BPTree), queue, unsynced
+//@        entries(tx.ReservedStoreTxIDIdxes), all(Node.Next), all(BPTree.Filepath), all(BPTree.enabledKeyPosMap), all(BPTree.keyPosMap), queue, unsynced
+//@   ensures[C20] old(nodesOK(nil)) ==> nodesOK(nil)
 //@   safety[C14] locks
 //@   safety[C20] panics
 
@@ -390,23 +393,202 @@ package nutsdb
 //@   modifies nothing
 //@   pure
 
+// B+ tree insertion. Under contract: the node invariant nodesOK (shape of every node, ownership of the slot arrays,
+// records in leaves, leaf chain, children of inner nodes, parent and root pointers) is preserved by every function of
+// the insertion path, no slice index or type assertion in it can panic, and insertIntoLeaf places exactly the new pair.
+// Not under contract: key order and separator keys (bounded stand-in BS1), and that a node is listed in its parent
+// (explicit assumption at the two calls in insertIntoParent).
+//@ spec func onlyNewNode(r *Node) bool = forall n *Node :: allocated(n) ==> old(allocated(n)) || n == r
+//@ spec func nodesOKX(x *Node) bool = nodeShape() && nodeOwn() && leafRecs(nil) && leafChain(nil) && innerKidsX(x) && parentsOK() && rootsOK()
+// sel3*(x, m, at, lo, mid, hi): x is element m of a sequence into which mid was inserted at position `at`
+// (lo: element m of the old sequence, hi: element m-1 of the old sequence)
+//@ spec func sel3K(x []byte, m int, at int, lo []byte, mid []byte, hi []byte) bool = (m < at ==> x == lo) && (m == at ==> x == mid) && (m > at ==> x == hi)
+//@ spec func sel3R(x interface{}, m int, at int, lo interface{}, mid *Record, hi interface{}) bool = (m < at ==> x == lo) && (m == at ==> typeis(x, Record) && ifaceval(x, Record) == mid) && (m > at ==> x == hi)
+//@ spec func sel3N(x interface{}, m int, at int, lo interface{}, mid *Node, hi interface{}) bool = (m < at ==> x == lo) && (m == at ==> typeis(x, Node) && ifaceval(x, Node) == mid) && (m > at ==> x == hi)
+//@ func getSplitIndex
+//@   requires length >= 0
+//@   ensures[C01] 2 * result == length || 2 * result == length + 1
+//@   modifies nothing
+//@   pure
+//@   safety[C20] panics
+//@ func BPTree.newNode
+//@   requires t != nil && nodesOK(nil)
+//@   ensures fresh(result) && !result.isLeaf && result.parent == nil && result.KeysNum == 0
+//@   ensures fresh(result.Keys) && allocated(result.Keys) && off(result.Keys) == 0 && len(result.Keys) == order - 1 && arr(result.Keys) != 0
+//@   ensures fresh(result.pointers) && allocated(result.pointers) && off(result.pointers) == 0 && len(result.pointers) == order && arr(result.pointers) != 0
+//@   ensures forall k int :: 0 <= k && k < order ==> isnil(result.pointers[k])
+//@   ensures onlyNewNode(result)
+//@   ensures nodesOKX(result)
+//@   modifies t.LastAddress
+//@   safety[C20] panics
+//@ func BPTree.newLeaf
+//@   requires t != nil && nodesOK(nil)
+//@   ensures fresh(result) && result.isLeaf && result.parent == nil && result.KeysNum == 0
+//@   ensures fresh(result.Keys) && allocated(result.Keys) && off(result.Keys) == 0 && len(result.Keys) == order - 1 && arr(result.Keys) != 0
+//@   ensures fresh(result.pointers) && allocated(result.pointers) && off(result.pointers) == 0 && len(result.pointers) == order && arr(result.pointers) != 0
+//@   ensures forall k int :: 0 <= k && k < order ==> isnil(result.pointers[k])
+//@   ensures onlyNewNode(result)
+//@   ensures nodesOK(nil)
+//@   modifies t.LastAddress
+//@   safety[C20] panics
+
+//@ func insertIntoLeaf
+//@   requires nodesOK(nil) && leaf != nil && allocated(leaf) && leaf.isLeaf && leaf.KeysNum < order - 1 && recOK(pointer)
+//@   ensures nodesOK(nil)
+//@   ensures[C01] leaf.KeysNum == old(leaf.KeysNum) + 1
+//@   modifies leaf.KeysNum, elems(leaf.Keys), elems(leaf.pointers)
+//@   safety[C20] panics
+//@   loops 2
+//@   loop 1: modifies nothing
+//@   loop 1: invariant 0 <= i && i <= leaf.KeysNum && leaf == old(leaf) && key == old(key) && pointer == old(pointer)
+//@   loop 2: modifies elems(leaf.Keys), elems(leaf.pointers)
+//@   loop 2: invariant leaf == old(leaf) && key == old(key) && pointer == old(pointer) && i == pre(i) && 0 <= i && i <= j && j <= leaf.KeysNum
+//@   loop 2: invariant nodesOK(nil)
+//@   loop 2: invariant forall k int :: 0 <= k && k <= leaf.KeysNum && k != j ==> typeis(leaf.pointers[k], Record) && recOK(ifaceval(leaf.pointers[k], Record))
+//@   loop 2: invariant[C01] forall k int :: 0 <= k && k <= j && k < leaf.KeysNum ==> leaf.Keys[k] == old(leaf.Keys[k]) && leaf.pointers[k] == old(leaf.pointers[k])
+//@   loop 2: invariant[C01] forall k int :: j < k && k <= leaf.KeysNum ==> leaf.Keys[k] == old(leaf.Keys[k - 1]) && leaf.pointers[k] == old(leaf.pointers[k - 1])
+//@   at return: assert[C01] 0 <= i && i < leaf.KeysNum && leaf.Keys[i] == key && typeis(leaf.pointers[i], Record) && ifaceval(leaf.pointers[i], Record) == pointer
+//@   at return: assert[C01] forall k int :: 0 <= k && k < i ==> leaf.Keys[k] == old(leaf.Keys[k]) && leaf.pointers[k] == old(leaf.pointers[k])
+//@   at return: assert[C01] forall k int :: i < k && k < leaf.KeysNum ==> leaf.Keys[k] == old(leaf.Keys[k - 1]) && leaf.pointers[k] == old(leaf.pointers[k - 1])
+
+//@ func BPTree.startNewTree
+//@   requires t != nil && nodesOK(nil) && recOK(pointer)
+//@   ensures nodesOK(nil) && result == nil
+//@   ensures[C01] t.root != nil && t.root.isLeaf && t.root.KeysNum == 1 && t.root.Keys[0] == key && typeis(t.root.pointers[0], Record) && ifaceval(t.root.pointers[0], Record) == pointer
+//@   modifies t.root, t.LastAddress
+//@   safety[C20] panics
+
+//@ func BPTree.insertIntoNewRoot
+//@   requires t != nil && nodesOK(nil) && left != nil && allocated(left) && right != nil && allocated(right)
+//@   ensures nodesOK(nil) && result == nil
+//@   ensures[C01] fresh(t.root) && !t.root.isLeaf && t.root.KeysNum == 1 && t.root.Keys[0] == key && t.root.parent == nil && left.parent == t.root && right.parent == t.root
+//@   ensures[C01] typeis(t.root.pointers[0], Node) && ifaceval(t.root.pointers[0], Node) == left && typeis(t.root.pointers[1], Node) && ifaceval(t.root.pointers[1], Node) == right
+//@   modifies t.root, t.LastAddress, left.parent, right.parent
+//@   safety[C20] panics
+
+//@ func BPTree.insertIntoNode
+//@   requires t != nil && nodesOK(nil) && node != nil && allocated(node) && !node.isLeaf && node.KeysNum < order - 1 && 0 <= leftIndex && leftIndex <= node.KeysNum && right != nil && allocated(right)
+//@   ensures nodesOK(nil) && result == nil
+//@   ensures node.KeysNum == old(node.KeysNum) + 1
+//@   ensures[C01] forall m int :: 0 <= m && m < node.KeysNum ==> sel3K(node.Keys[m], m, leftIndex, old(node.Keys[m]), key, old(node.Keys[m - 1]))
+//@   ensures[C01] forall m int :: 0 <= m && m <= node.KeysNum ==> sel3N(node.pointers[m], m, leftIndex + 1, old(node.pointers[m]), right, old(node.pointers[m - 1]))
+//@   modifies node.KeysNum, elems(node.Keys), elems(node.pointers)
+//@   safety[C20] panics
+//@   loops 1
+//@   loop 1: modifies elems(node.Keys), elems(node.pointers)
+//@   loop 1: invariant node == old(node) && leftIndex == old(leftIndex) && right == old(right) && key == old(key) && leftIndex <= i && i <= node.KeysNum
+//@   loop 1: invariant nodesOK(nil)
+//@   loop 1: invariant forall k int :: 0 <= k && k <= node.KeysNum + 1 && k != i + 1 ==> kidOK(node.pointers[k])
+//@   loop 1: invariant[C01] forall m int :: 0 <= m && m < i ==> node.Keys[m] == old(node.Keys[m])
+//@   loop 1: invariant[C01] forall m int :: i < m && m <= node.KeysNum ==> node.Keys[m] == old(node.Keys[m - 1])
+//@   loop 1: invariant[C01] forall m int :: 0 <= m && m <= i ==> node.pointers[m] == old(node.pointers[m])
+//@   loop 1: invariant[C01] forall m int :: i + 1 < m && m <= node.KeysNum + 1 ==> node.pointers[m] == old(node.pointers[m - 1])
+
+//@ func BPTree.insertIntoParent
+//@   requires t != nil && nodesOK(nil) && left != nil && allocated(left) && right != nil && allocated(right)
+//@   ensures nodesOK(nil) && result == nil
+//@   modifies alltype(Node), t.root, t.LastAddress, allelems(left.Keys), allelems(left.pointers)
+//@   safety[C20] panics
+//@   loops 1
+//@   loop 1: modifies nothing
+//@   loop 1: invariant left == old(left) && 0 <= leftIndex && leftIndex <= left.parent.KeysNum + 1
+//@   at call insertIntoNode: assume leftIndex <= left.parent.KeysNum
+//@   at call splitParent: assume leftIndex <= left.parent.KeysNum
+//@   at call insertIntoNewRoot: assert[C01] $arg1 == left && $arg2 == key && $arg3 == right && left.parent == nil
+//@   at call insertIntoNode: assert[C01] $arg1 == left.parent && typeis(left.parent.pointers[$arg2], Node) && ifaceval(left.parent.pointers[$arg2], Node) == left && $arg3 == key && $arg4 == right
+//@   at call splitParent: assert[C01] $arg1 == left.parent && typeis(left.parent.pointers[$arg2], Node) && ifaceval(left.parent.pointers[$arg2], Node) == left && $arg3 == key && $arg4 == right
+
+//@ func BPTree.splitParent
+//@   requires t != nil && nodesOK(nil) && node != nil && allocated(node) && !node.isLeaf && node.KeysNum == order - 1 && 0 <= leftIndex && leftIndex <= node.KeysNum && right != nil && allocated(right)
+//@   ensures nodesOK(nil) && result == nil
+//@   modifies alltype(Node), t.root, t.LastAddress, allelems(node.Keys), allelems(node.pointers)
+//@   safety[C20] panics
+//@   loops 5
+//@   loop 1: modifies elems(tmpKeys)
+//@   loop 1: invariant node == old(node) && leftIndex == old(leftIndex) && 0 <= i && i <= node.KeysNum && (i <= leftIndex ==> j == i) && (i > leftIndex ==> j == i + 1) && nodesOK(nil) && node.KeysNum == order - 1 && tmpKeys == pre(tmpKeys) && tmpPointers == pre(tmpPointers)
+//@   loop 2: modifies elems(tmpPointers)
+//@   loop 2: invariant node == old(node) && leftIndex == old(leftIndex) && right == old(right) && 0 <= i && i <= node.KeysNum + 1 && (i <= leftIndex + 1 ==> j == i) && (i > leftIndex + 1 ==> j == i + 1) && node.KeysNum == order - 1 && tmpKeys == pre(tmpKeys) && tmpPointers == pre(tmpPointers)
+//@   loop 2: invariant nodesOK(nil)
+//@   loop 2: invariant forall m int :: 0 <= m && m < j && m != leftIndex + 1 ==> kidOK(tmpPointers[m])
+//@   loop 1: invariant[C01] forall m int :: 0 <= m && m < j && m != leftIndex ==> sel3K(tmpKeys[m], m, leftIndex, node.Keys[m], key, node.Keys[m - 1])
+//@   loop 2: invariant[C01] forall m int :: 0 <= m && m < j && m != leftIndex + 1 ==> sel3N(tmpPointers[m], m, leftIndex + 1, node.pointers[m], right, node.pointers[m - 1])
+//@   at call getSplitIndex: assert[C01] forall m int :: 0 <= m && m < order ==> sel3K(tmpKeys[m], m, leftIndex, old(node.Keys[m]), key, old(node.Keys[m - 1]))
+//@   at call getSplitIndex: assert[C01] forall m int :: 0 <= m && m <= order ==> sel3N(tmpPointers[m], m, leftIndex + 1, old(node.pointers[m]), right, old(node.pointers[m - 1]))
+//@   loop 3: invariant[C01] forall m int :: 0 <= m && m < i ==> node.Keys[m] == tmpKeys[m] && node.pointers[m] == tmpPointers[m]
+//@   loop 4: invariant[C01] forall m int :: 0 <= m && m < j ==> newNode.Keys[m] == tmpKeys[splitIndex + 1 + m] && newNode.pointers[m] == tmpPointers[splitIndex + 1 + m]
+//@   loop 5: invariant[C01] forall m int :: 0 <= m && m < i && m <= newNode.KeysNum ==> ifaceval(newNode.pointers[m], Node).parent == newNode
+//@   at call insertIntoParent: assert[C01] $arg1 == node && $arg3 == newNode && node.KeysNum == splitIndex && newNode.KeysNum == order - 1 - splitIndex && $arg2 == tmpKeys[splitIndex]
+//@   at call insertIntoParent: assert[C01] forall m int :: 0 <= m && m < splitIndex ==> node.Keys[m] == tmpKeys[m]
+//@   at call insertIntoParent: assert[C01] forall m int :: 0 <= m && m <= splitIndex ==> node.pointers[m] == tmpPointers[m]
+//@   at call insertIntoParent: assert[C01] forall m int :: 0 <= m && m < newNode.KeysNum ==> newNode.Keys[m] == tmpKeys[splitIndex + 1 + m]
+//@   at call insertIntoParent: assert[C01] forall m int :: 0 <= m && m <= newNode.KeysNum ==> newNode.pointers[m] == tmpPointers[splitIndex + 1 + m] && ifaceval(newNode.pointers[m], Node).parent == newNode
+//@   loop 3: modifies node.KeysNum, elems(node.Keys), elems(node.pointers)
+//@   loop 3: invariant node == old(node) && right == old(right) && 0 <= i && i <= splitIndex && node.KeysNum == i && tmpKeys == pre(tmpKeys) && tmpPointers == pre(tmpPointers) && splitIndex == pre(splitIndex)
+//@   loop 3: invariant nodesOK(nil)
+//@   loop 3: invariant forall m int :: 0 <= m && m <= order ==> kidOK(tmpPointers[m])
+//@   loop 3: invariant forall m int :: 0 <= m && m < order ==> kidOK(node.pointers[m])
+//@   loop 4: modifies newNode.KeysNum, elems(newNode.Keys), elems(newNode.pointers)
+//@   loop 4: invariant node == old(node) && newNode == pre(newNode) && 0 <= j && i == j + splitIndex + 1 && i <= order && newNode.KeysNum == j && tmpKeys == pre(tmpKeys) && tmpPointers == pre(tmpPointers) && splitIndex == pre(splitIndex)
+//@   loop 4: invariant nodesOKX(newNode)
+//@   loop 4: invariant forall m int :: 0 <= m && m <= order ==> kidOK(tmpPointers[m])
+//@   loop 4: invariant forall m int :: 0 <= m && m < j ==> kidOK(newNode.pointers[m])
+//@   loop 5: modifies all(Node.parent)
+//@   loop 5: invariant node == old(node) && newNode == pre(newNode) && 0 <= i && nodesOK(nil) && tmpKeys == pre(tmpKeys) && splitIndex == pre(splitIndex)
+
+//@ func BPTree.splitLeaf
+//@   requires t != nil && nodesOK(nil) && leaf != nil && allocated(leaf) && leaf.isLeaf && leaf.KeysNum == order - 1 && recOK(pointer)
+//@   ensures nodesOK(nil) && result == nil
+//@   modifies alltype(Node), t.root, t.LastAddress, allelems(leaf.Keys), allelems(leaf.pointers)
+//@   safety[C20] panics
+//@   loops 4
+//@   loop 1: modifies nothing
+//@   loop 1: invariant leaf == old(leaf) && key == old(key) && 0 <= i && i <= order - 1 && (forall m int :: 0 <= m && m < i ==> cmp(leaf.Keys[m], key) < 0)
+//@   branch 2: iff[C01] cmp(leaf.Keys[i], key) < 0
+//@   loop 2: modifies elems(tmpKeys), elems(tmpPointers)
+//@   loop 2: invariant leaf == old(leaf) && pointer == old(pointer) && i == pre(i) && 0 <= j && j <= leaf.KeysNum && (j <= i ==> k == j) && (j > i ==> k == j + 1) && leaf.KeysNum == order - 1 && tmpKeys == pre(tmpKeys) && tmpPointers == pre(tmpPointers)
+//@   loop 2: invariant nodesOK(nil)
+//@   loop 2: invariant forall m int :: 0 <= m && m < k && m != i ==> typeis(tmpPointers[m], Record) && recOK(ifaceval(tmpPointers[m], Record))
+//@   loop 3: modifies leaf.KeysNum, elems(leaf.Keys), elems(leaf.pointers)
+//@   loop 3: invariant leaf == old(leaf) && 0 <= i && i <= splitIndex && leaf.KeysNum == i && splitIndex == pre(splitIndex) && tmpKeys == pre(tmpKeys) && tmpPointers == pre(tmpPointers)
+//@   loop 3: invariant nodesOK(nil)
+//@   loop 3: invariant forall m int :: 0 <= m && m < order ==> typeis(tmpPointers[m], Record) && recOK(ifaceval(tmpPointers[m], Record))
+//@   loop 4: modifies newLeaf.KeysNum, elems(newLeaf.Keys), elems(newLeaf.pointers)
+//@   loop 4: invariant leaf == old(leaf) && newLeaf == pre(newLeaf) && 0 <= j && i == j + splitIndex && i <= order && newLeaf.KeysNum == j && splitIndex == pre(splitIndex) && tmpKeys == pre(tmpKeys) && tmpPointers == pre(tmpPointers)
+//@   loop 4: invariant nodesOK(nil)
+//@   loop 4: invariant forall m int :: 0 <= m && m < order ==> typeis(tmpPointers[m], Record) && recOK(ifaceval(tmpPointers[m], Record))
+//@   loop 4: invariant isnil(newLeaf.pointers[order - 1])
+//@   loop 2: invariant[C01] forall m int :: 0 <= m && m < k && m != i ==> sel3K(tmpKeys[m], m, i, leaf.Keys[m], key, leaf.Keys[m - 1]) && sel3R(tmpPointers[m], m, i, leaf.pointers[m], pointer, leaf.pointers[m - 1])
+//@   at call getSplitIndex: assert[C01] forall m int :: 0 <= m && m < order ==> sel3K(tmpKeys[m], m, i, old(leaf.Keys[m]), key, old(leaf.Keys[m - 1]))
+//@   at call getSplitIndex: assert[C01] forall m int :: 0 <= m && m < order ==> sel3R(tmpPointers[m], m, i, old(leaf.pointers[m]), pointer, old(leaf.pointers[m - 1]))
+//@   at call getSplitIndex: assert[C01] (forall m int :: 0 <= m && m < i ==> cmp(old(leaf.Keys[m]), key) < 0) && (i < order - 1 ==> cmp(leaf.Keys[i], key) >= 0)
+//@   loop 3: invariant[C01] leaf.pointers[order - 1] == old(leaf.pointers[order - 1]) && (forall m int :: 0 <= m && m < i ==> leaf.Keys[m] == tmpKeys[m] && leaf.pointers[m] == tmpPointers[m])
+//@   loop 4: invariant[C01] forall m int :: 0 <= m && m < j ==> newLeaf.Keys[m] == tmpKeys[splitIndex + m] && newLeaf.pointers[m] == tmpPointers[splitIndex + m]
+//@   at call insertIntoParent: assert[C01] $arg1 == leaf && $arg3 == newLeaf && leaf.KeysNum == splitIndex && newLeaf.KeysNum == order - splitIndex && 2 * splitIndex == order && $arg2 == tmpKeys[splitIndex] && newLeaf.parent == leaf.parent
+//@   at call insertIntoParent: assert[C01] forall m int :: 0 <= m && m < splitIndex ==> leaf.Keys[m] == tmpKeys[m] && leaf.pointers[m] == tmpPointers[m]
+//@   at call insertIntoParent: assert[C01] forall m int :: 0 <= m && m < order - splitIndex ==> newLeaf.Keys[m] == tmpKeys[splitIndex + m] && newLeaf.pointers[m] == tmpPointers[splitIndex + m]
+//@   at call insertIntoParent: assert[C01] typeis(leaf.pointers[order - 1], Node) && ifaceval(leaf.pointers[order - 1], Node) == newLeaf && newLeaf.pointers[order - 1] == old(leaf.pointers[order - 1])
+
 //@ func BPTree.Insert
-//@   assumed B+ tree insertion (global ordering invariant is covered by the bounded stand-in BS1, not by contracts)
-//@   requires t != nil && h != nil && h.meta != nil
+//@   requires t != nil && h != nil && h.meta != nil && h.dataPos < 9223372036854775808 && nodesOK(nil)
+//@   ensures nodesOK(nil)
 //@   ensures forall x *Record :: old(allocated(x)) ==> (x.H == old(x.H) || x.H == h) && (x.E == old(x.E) || x.E == e)
 //@   ensures forall x *Record :: old(x.H != nil && x.H.meta != nil) ==> x.H != nil && x.H.meta != nil
-//@   modifies alltype(BPTree), alltype(Node), alltype(Record)
+//@   ensures forall x *Record :: old(x.H.dataPos < 9223372036854775808) ==> x.H.dataPos < 9223372036854775808
+//@   modifies alltype(BPTree), alltype(Node), alltype(Record), allelems(t.root.Keys), allelems(t.root.pointers)
+//@   safety[C20] panics
 
 //@ func Tx.buildBPTreeIdx
 //@   requires tx != nil && tx.db != nil && tx.db.ActiveFile != nil && entry != nil && entry.Meta != nil && tx.db.BPTreeIdx != nil
 //@   requires tx.db.opt.EntryIdxMode == HintBPTSparseIdxMode ==> tx.db.ActiveBPTreeIdx != nil
 //@   requires[C14] lockMode == 2
+//@   requires[C20] off >= 0 && nodesOK(nil)
+//@   ensures[C20] nodesOK(nil)
 //@   at entry: bump idxMut
 //@   ensures idxMut == old(idxMut) + 1
 //@   ensures[C04] forall b string :: b != bucket ==> has(tx.db.BPTreeIdx, b) == old(has(tx.db.BPTreeIdx, b)) && tx.db.BPTreeIdx[b] == old(tx.db.BPTreeIdx[b])
 //@   ensures tx.db.opt.EntryIdxMode != HintBPTSparseIdxMode ==> has(tx.db.BPTreeIdx, bucket) && tx.db.BPTreeIdx[bucket] != nil
 //@   ensures[C15] old(treesOK(tx.db)) ==> treesOK(tx.db)
-//@   modifies entries(tx.db.BPTreeIdx), alltype(BPTree), alltype(Node), alltype(Record), idxMut
+//@   modifies entries(tx.db.BPTreeIdx), alltype(BPTree), alltype(Node), alltype(Record), idxMut, allelems(tx.db.BPTreeIdx[""].root.Keys), allelems(tx.db.BPTreeIdx[""].root.pointers)
 //@   safety[C14] locks
 //@   safety[C20] panics
 
@@ -437,7 +619,7 @@ package nutsdb
 //@ func Tx.buildIdxes
 //@   requires tx != nil && tx.db != nil && applicable(tx.db) && 0 <= writesLen && writesLen <= len(tx.pendingWrites)
 //@   requires forall k int :: 0 <= k && k < len(tx.pendingWrites) ==> tx.pendingWrites[k] != nil && tx.pendingWrites[k].Meta != nil && recShape(tx.pendingWrites[k])
-//@   requires[C14] lockMode == 2
+//@   requires[C13,C14] lockMode == 2
 //@   ensures[C12] tx.db.KeyCount == old(tx.db.KeyCount) + writesLen
 //@   ensures applicable(tx.db) && idxMut >= old(idxMut)
 //@   modifies tx.db.KeyCount, entries(tx.db.SetIdx), entries(tx.db.ListIdx), entries(tx.db.SortedSetIdx), alltype(zset.SortedSet), all(zset.SortedSetNode.backward), all(zset.SortedSetNode.Value), allelems(tx.db.SortedSetIdx[""].header.level), allentries(tx.db.SortedSetIdx[""].Dict), idxMut,
@@ -457,7 +639,8 @@ package nutsdb
 //@ func Tx.buildTxIDRootIdx
 //@   assumed sparse mode: records the committed tx id in the active / reserved tx-id trees and their files
 //@   ensures tx.db.opt.SyncEnable ==> unsynced == old(unsynced)
-//@   modifies alltype(BPTree), alltype(Node), alltype(Record), queue, unsynced
+//@   ensures old(nodesOK(nil)) ==> nodesOK(nil)
+//@   modifies alltype(BPTree), alltype(Node), alltype(Record), queue, unsynced, allelems(tx.db.ActiveCommittedTxIdsIdx.root.Keys), allelems(tx.db.ActiveCommittedTxIdsIdx.root.pointers)
 //@ func Tx.buildBucketMetaIdx
 //@   assumed sparse mode: persists the bucket key range
 //@   ensures tx.db.opt.SyncEnable ==> unsynced == old(unsynced)
@@ -468,6 +651,7 @@ package nutsdb
 //@   requires tx.db != nil ==> (tx.writable ==> lockMode == 2) && (!tx.writable ==> lockMode == 1) && (len(tx.pendingWrites) > 0 ==> tx.writable)
 //@   requires tx.db != nil && tx.db.opt.SyncEnable ==> unsynced == 0
 //@   requires[C20] tx.db != nil ==> applicable(tx.db) && treesOK(tx.db)
+//@   requires[C20] tx.db != nil ==> nodesOK(nil)
 //@   requires tx.db != nil && tx.db.opt.EntryIdxMode == HintBPTSparseIdxMode ==> tx.db.ActiveBPTreeIdx != nil && tx.db.ActiveCommittedTxIdsIdx != nil && tx.db.bucketMetas != nil
 //@   ensures[C12,C20] old(tx.db) == nil ==> result == ErrDBClosed
 //@   ensures[C14] result == nil && old(tx.db) != nil ==> lockMode == 0 && tx.db == nil
@@ -478,6 +662,7 @@ package nutsdb
 //@   ensures tx.writable == old(tx.writable) && rewrites == old(rewrites) && removes == old(removes)
 //@   ensures[C15] forall d *DataFile :: old(allocated(d)) ==> d.rwManager == old(d.rwManager)
 //@   ensures[C15] old(tx.db) != nil ==> treesOK(old(tx.db)) && old(tx.db).isMerging == old(tx.db.isMerging)
+//@   ensures[C20] old(tx.db) != nil ==> nodesOK(nil)
 //@   modifies everything
 //@   safety[C14] locks
 //@   safety[C20] panics
@@ -491,6 +676,7 @@ package nutsdb
 //@   loop 1: invariant pendingDistinct(tx)
 //@   loop 1: invariant[C20] applicable(tx.db)
 //@   loop 1: invariant[C15] treesOK(tx.db)
+//@   loop 1: invariant[C20] nodesOK(nil)
 //@   loop 1: invariant[C15] forall d *DataFile :: old(allocated(d)) ==> d.rwManager == old(d.rwManager)
 //@   loop 1: invariant[C20] forall k int :: 0 <= k && k < len(tx.pendingWrites) ==> tx.pendingWrites[k] != nil && tx.pendingWrites[k].Meta != nil && recShape(tx.pendingWrites[k])
 //@   loop 1: invariant[C11] tx.db.opt.SyncEnable ==> unsynced == 0
@@ -543,14 +729,25 @@ package nutsdb
 //@   loop 1: invariant off >= 0 && db == old(db) && db.ActiveFile == old(db.ActiveFile) && db.ActiveFile.rwManager != nil && db.ActiveFile.ActualSize == off
 
 //@ func DB.parseDataFiles
-//@   requires db != nil && db.BPTreeKeyEntryPosMap != nil && db.ActiveCommittedTxIdsIdx != nil && (db.opt.EntryIdxMode == HintBPTSparseIdxMode ==> len(dataFileIds) > 0)
+//@   requires db != nil && db.BPTreeKeyEntryPosMap != nil && db.ActiveCommittedTxIdsIdx != nil && (db.opt.EntryIdxMode == HintBPTSparseIdxMode ==> len(dataFileIds) > 0) && nodesOK(nil)
 //@   ensures err == nil ==> committedTxIds != nil
 //@   ensures db.opt == old(db.opt) && db.BPTreeIdx == old(db.BPTreeIdx) && db.ActiveBPTreeIdx == old(db.ActiveBPTreeIdx) && db.SetIdx == old(db.SetIdx) && db.ListIdx == old(db.ListIdx) && db.SortedSetIdx == old(db.SortedSetIdx)
 //@   ensures[C08,C10] forall k int :: 0 <= k && k < len(unconfirmedRecords) ==> unconfirmedRecords[k] != nil && unconfirmedRecords[k].H != nil && unconfirmedRecords[k].H.meta != nil
 //@   ensures old(applicable(db)) ==> applicable(db)
+//@   ensures[C20] nodesOK(nil)
+//@   ensures[C20] forall k int :: 0 <= k && k < len(unconfirmedRecords) ==> unconfirmedRecords[k].H.dataPos < 9223372036854775808 && allocated(unconfirmedRecords[k])
+//@   ensures[C20] old(treesOK(db)) ==> treesOK(db)
 //@   modifies everything
 //@   safety[C20] panics
 //@   loops 2
+//@   loop 1: invariant[C20] nodesOK(nil)
+//@   loop 2: invariant[C20] nodesOK(nil)
+//@   loop 1: invariant[C20] forall k int :: 0 <= k && k < len(unconfirmedRecords) ==> allocated(unconfirmedRecords[k])
+//@   loop 1: invariant[C20] forall k int :: 0 <= k && k < len(unconfirmedRecords) ==> unconfirmedRecords[k].H.dataPos < 9223372036854775808
+//@   loop 2: invariant[C20] forall k int :: 0 <= k && k < len(unconfirmedRecords) ==> allocated(unconfirmedRecords[k])
+//@   loop 2: invariant[C20] forall k int :: 0 <= k && k < len(unconfirmedRecords) ==> unconfirmedRecords[k].H.dataPos < 9223372036854775808
+//@   loop 1: invariant[C20] old(treesOK(db)) ==> treesOK(db)
+//@   loop 2: invariant[C20] old(treesOK(db)) ==> treesOK(db)
 //@   loop 1: invariant -1 <= rangeindex && db == old(db) && db.BPTreeKeyEntryPosMap != nil && committedTxIds != nil && db.opt == old(db.opt) &&
 //@        db.ActiveCommittedTxIdsIdx != nil && db.BPTreeIdx == old(db.BPTreeIdx) && db.ActiveBPTreeIdx == old(db.ActiveBPTreeIdx) && db.SetIdx == old(db.SetIdx) && db.ListIdx == old(db.ListIdx) && db.SortedSetIdx == old(db.SortedSetIdx)
 //@   loop 1: invariant forall k int :: 0 <= k && k < len(unconfirmedRecords) ==> unconfirmedRecords[k] != nil && unconfirmedRecords[k].H != nil && unconfirmedRecords[k].H.meta != nil
@@ -561,7 +758,7 @@ package nutsdb
 //@   loop 2: invariant old(applicable(db)) ==> applicable(db)
 //@   at mapupdate committedTxIds: assert[C10,C08] entry.Meta.status == Committed && $key == entry.Meta.txID
 //@   at mapupdate BPTreeKeyEntryPosMap: assert[C02] $value == lastReadOff
-//@   at stored unconfirmedRecords: assert[C01,C19,C08] len(unconfirmedRecords) > 0 ==>
+//@   at stored unconfirmedRecords: assert[C01,C19,C08,C22] len(unconfirmedRecords) > 0 ==>
 //@        unconfirmedRecords[len(unconfirmedRecords) - 1].H.fileID == fID && unconfirmedRecords[len(unconfirmedRecords) - 1].H.dataPos == lastReadOff &&
 //@        unconfirmedRecords[len(unconfirmedRecords) - 1].H.meta == entry.Meta && unconfirmedRecords[len(unconfirmedRecords) - 1].H.key == entry.Key &&
 //@        (db.opt.EntryIdxMode == HintKeyValAndRAMIdxMode ==> unconfirmedRecords[len(unconfirmedRecords) - 1].E != nil &&
@@ -570,19 +767,23 @@ package nutsdb
 //@   branch 10: implied-by[C09,C19] off >= db.opt.SegmentSize
 
 //@ func DB.buildBPTreeIdx
-//@   assumed open-time twin of Tx.buildBPTreeIdx (B+ tree insertion is covered by the bounded stand-in)
-//@   requires db != nil && r != nil && r.H != nil && r.H.meta != nil
+//@   requires db != nil && db.BPTreeIdx != nil && treesOK(db) && r != nil && r.H != nil && r.H.meta != nil && r.H.dataPos < 9223372036854775808 && nodesOK(nil)
+//@   ensures[C20] nodesOK(nil) && treesOK(db)
 //@   ensures forall x *Record :: old(allocated(x)) ==> (x.H == old(x.H) || x.H == r.H) && (x.E == old(x.E) || x.E == r.E)
 //@   ensures forall x *Record :: old(x.H != nil && x.H.meta != nil) ==> x.H != nil && x.H.meta != nil
+//@   ensures forall x *Record :: old(x.H.dataPos < 9223372036854775808) ==> x.H.dataPos < 9223372036854775808
 //@   ensures r.H == old(r.H) && r.H.meta == old(r.H.meta) && r.H.meta.txID == old(r.H.meta.txID) && r.H.meta.ds == old(r.H.meta.ds)
-//@   modifies entries(db.BPTreeIdx), alltype(BPTree), alltype(Node), alltype(Record)
+//@   modifies entries(db.BPTreeIdx), alltype(BPTree), alltype(Node), alltype(Record), allelems(db.BPTreeIdx[""].root.Keys), allelems(db.BPTreeIdx[""].root.pointers)
+//@   safety[C20] panics
 //@ func DB.buildActiveBPTreeIdx
-//@   assumed sparse-mode open-time insertion into the active tree
-//@   requires db != nil && r != nil && r.H != nil && r.H.meta != nil
+//@   requires db != nil && db.ActiveBPTreeIdx != nil && r != nil && r.H != nil && r.H.meta != nil && r.H.dataPos < 9223372036854775808 && nodesOK(nil)
+//@   ensures[C20] nodesOK(nil)
 //@   ensures forall x *Record :: old(allocated(x)) ==> (x.H == old(x.H) || x.H == r.H) && (x.E == old(x.E) || x.E == r.E)
 //@   ensures forall x *Record :: old(x.H != nil && x.H.meta != nil) ==> x.H != nil && x.H.meta != nil
+//@   ensures forall x *Record :: old(x.H.dataPos < 9223372036854775808) ==> x.H.dataPos < 9223372036854775808
 //@   ensures r.H == old(r.H) && r.H.meta == old(r.H.meta) && r.H.meta.txID == old(r.H.meta.txID) && r.H.meta.ds == old(r.H.meta.ds)
-//@   modifies alltype(BPTree), alltype(Node), alltype(Record), elems(r.H.meta.bucket)
+//@   modifies alltype(BPTree), alltype(Node), alltype(Record), elems(r.H.meta.bucket), allelems(db.ActiveBPTreeIdx.root.Keys), allelems(db.ActiveBPTreeIdx.root.pointers)
+//@   safety[C20] panics
 //@ func DB.buildSortedSetIdx
 //@   requires db != nil && zsetsOK(db) && r != nil && r.H != nil && r.H.meta != nil && r.H.meta.ds == DataStructureSortedSet
 //@   ensures[C07] db.SortedSetIdx != nil && has(db.SortedSetIdx, bucket) && (old(has(db.SortedSetIdx, bucket)) ==> db.SortedSetIdx[bucket] == old(db.SortedSetIdx[bucket]))
@@ -619,13 +820,18 @@ package nutsdb
 //@   modifies db.BPTreeRootIdxes
 
 //@ func DB.buildHintIdx
-//@   requires applicable(db)
+//@   requires applicable(db) && nodesOK(nil) && treesOK(db)
+//@   ensures[C20] nodesOK(nil)
 //@   requires db != nil && db.BPTreeKeyEntryPosMap != nil && db.ActiveCommittedTxIdsIdx != nil && db.BPTreeIdx != nil && (db.opt.EntryIdxMode == HintBPTSparseIdxMode ==> len(dataFileIds) > 0 && db.ActiveBPTreeIdx != nil)
 //@   modifies everything
 //@   safety[C20] panics
 //@   loops 1
 //@   loop 1: invariant -1 <= rangeindex && rangeindex < len(unconfirmedRecords) && db == old(db) && db.opt == old(db.opt)
 //@   loop 1: invariant applicable(db)
+//@   loop 1: invariant[C20] nodesOK(nil)
+//@   loop 1: invariant[C20] treesOK(db) && db.BPTreeIdx != nil && db.ActiveBPTreeIdx == old(db.ActiveBPTreeIdx)
+//@   loop 1: invariant[C20] forall k int :: 0 <= k && k < len(unconfirmedRecords) ==> allocated(unconfirmedRecords[k])
+//@   loop 1: invariant[C20] forall k int :: 0 <= k && k < len(unconfirmedRecords) ==> unconfirmedRecords[k].H.dataPos < 9223372036854775808
 //@   loop 1: invariant forall k int :: 0 <= k && k < len(unconfirmedRecords) ==> unconfirmedRecords[k] != nil && unconfirmedRecords[k].H != nil && unconfirmedRecords[k].H.meta != nil
 //@   branch 4: iff[C08,C10,C11] has(db.committedTxIds, r.H.meta.txID)
 //@   at call buildBPTreeIdx: assert[C10,C11] has(db.committedTxIds, r.H.meta.txID)
@@ -986,22 +1192,62 @@ package nutsdb
 //@   pure
 
 //@ func BPTree.Find
-//@   assumed B+ tree lookup (ordered-map behaviour of the tree is covered by the bounded stand-in BS1)
-//@   requires t != nil
-//@   ensures result1 == nil ==> result0 != nil && result0.H != nil && result0.H.meta != nil && result0.H.dataPos < 9223372036854775808
-//@   ensures result1 != nil ==> result0 == nil
+//@   requires t != nil && nodesOK(t)
+//@   ensures result1 == nil ==> recOK(result0) && allocated(result0)
+//@   ensures[C01] result1 == nil ==> t.root != nil && (exists n *Node, k int :: allocated(n) && n.isLeaf && 0 <= k && k < n.KeysNum && cmp(key, n.Keys[k]) == 0 && result0 == ifaceval(n.pointers[k], Record))
+//@   ensures[C01] result1 != nil ==> result0 == nil && result1 == ErrKeyNotFound
+//@   at return #2: assert[C01] forall k int :: 0 <= k && k < leaf.KeysNum ==> cmp(key, leaf.Keys[k]) != 0
 //@   modifies nothing
 //@   pure
+//@   safety[C20] panics
+//@   loops 1
+//@   loop 1: modifies nothing
+//@   loop 1: invariant 0 <= i && i <= leaf.KeysNum && leaf == pre(leaf) && key == old(key) && (forall k int :: 0 <= k && k < i ==> cmp(key, leaf.Keys[k]) != 0)
+//@ func BPTree.getAll
+//@   requires t != nil && nodesOK(t)
+//@   ensures[C20] 0 <= numFound && numFound == len(pointers) && numFound == len(keys) && ptrsOK(pointers, numFound)
+//@   modifies nothing
+//@   safety[C20] panics
+//@   loops 2
+//@   loop 1: modifies nothing
+//@   loop 1: invariant 0 <= numFound && numFound == len(keys) && numFound == len(pointers) && ptrsOK(pointers, numFound) && sinceLoop(keys) && sinceLoop(pointers) && 0 <= j &&
+//@        (n != nil ==> allocated(n) && n.isLeaf)
+//@   loop 1: invariant nodesOK(t)
+//@   loop 2: modifies elems(keys), elems(pointers)
+//@   loop 2: invariant 0 <= i && n == pre(n) && n != nil && allocated(n) && n.isLeaf && nodesOK(t) && 0 <= numFound && numFound == len(keys) && numFound == len(pointers) && ptrsOK(pointers, numFound) &&
+//@        (arr(keys) == arr(pre(keys)) || sinceLoop(keys)) && (arr(pointers) == arr(pre(pointers)) || sinceLoop(pointers))
+//@   at stored keys: assert[C01] len(keys) > 0 ==> keys[len(keys) - 1] == n.Keys[i]
+//@   at stored pointers: assert[C01] len(pointers) > 0 ==> pointers[len(pointers) - 1] == n.pointers[i]
+//@ func BPTree.findRange
+//@   requires t != nil && nodesOK(t)
+//@   ensures[C20] 0 <= numFound && numFound == len(pointers) && numFound == len(keys) && ptrsOK(pointers, numFound)
+//@   modifies nothing
+//@   safety[C20] panics
+//@   loops 3
+//@   loop 1: modifies nothing
+//@   loop 1: invariant n == pre(n) && start == old(start) && 0 <= j && (forall k int :: 0 <= k && k < j ==> cmp(n.Keys[k], start) < 0)
+//@   loop 2: modifies nothing
+//@   loop 2: invariant 0 <= numFound && numFound == len(keys) && numFound == len(pointers) && ptrsOK(pointers, numFound) && sinceLoop(keys) && sinceLoop(pointers) && 0 <= j && end == old(end) &&
+//@        (n != nil ==> allocated(n) && n.isLeaf)
+//@   loop 2: invariant nodesOK(t)
+//@   loop 3: modifies elems(keys), elems(pointers)
+//@   loop 3: invariant 0 <= i && n == pre(n) && n != nil && allocated(n) && n.isLeaf && nodesOK(t) && 0 <= numFound && numFound == len(keys) && numFound == len(pointers) && ptrsOK(pointers, numFound) && end == old(end) &&
+//@        (arr(keys) == arr(pre(keys)) || sinceLoop(keys)) && (arr(pointers) == arr(pre(pointers)) || sinceLoop(pointers))
+//@   branch 3: iff[C01] cmp(n.Keys[j], start) < 0
+//@   branch 7: iff[C01] cmp(n.Keys[i], end) > 0
+//@   at stored keys: assert[C01] len(keys) > 0 ==> keys[len(keys) - 1] == n.Keys[i] && cmp(n.Keys[i], end) <= 0
+//@   at stored pointers: assert[C01] len(pointers) > 0 ==> pointers[len(pointers) - 1] == n.pointers[i]
 //@ func BPTree.All
-//@   assumed B+ tree scan (bounded stand-in BS1)
-//@   requires t != nil
+//@   requires t != nil && nodesOK(t)
 //@   ensures err == nil ==> recsOK(records)
 //@   modifies nothing
+//@   safety[C20] panics
 //@ func BPTree.Range
-//@   assumed B+ tree scan (bounded stand-in BS1)
-//@   requires t != nil
+//@   requires t != nil && nodesOK(t)
 //@   ensures err == nil ==> recsOK(records)
+//@   ensures[C01] cmp(start, end) > 0 ==> err == ErrStartKey
 //@   modifies nothing
+//@   safety[C20] panics
 
 //@ func Tx.getHintIdxDataItemsWrapper
 //@   requires[C14] lockMode >= 1
@@ -1022,7 +1268,7 @@ package nutsdb
 //@   at stored es: assert[C12] has(tx.db.committedTxIds, r.H.meta.txID)
 
 //@ func Tx.Get
-//@   requires txOK(tx) && (tx.db != nil ==> treesOK(tx.db))
+//@   requires txOK(tx) && (tx.db != nil ==> treesOK(tx.db) && nodesOK(nil))
 //@   requires tx.db != nil && tx.db.opt.EntryIdxMode == HintBPTSparseIdxMode ==> sparseOK(tx.db)
 //@   ensures[C12,C20] tx.db == nil ==> err == ErrTxClosed
 //@   ensures[C01] err != nil ==> e == nil
@@ -1083,20 +1329,40 @@ package nutsdb
 //@   pure
 
 //@ func BPTree.FindLeaf
-//@   assumed descent to the leaf responsible for a key (bounded stand-in BS1)
-//@   requires t != nil
-//@   ensures result != nil ==> result.isLeaf
+//@   requires t != nil && nodesOK(t)
+//@   ensures result != nil ==> allocated(result) && result.isLeaf
+//@   ensures (result == nil) == (t.root == nil)
 //@   modifies nothing
 //@   pure
+//@   safety[C20] panics
+//@   loops 2
+//@   loop 1: modifies nothing
+//@   loop 1: invariant curr != nil && allocated(curr) && t == old(t) && key == old(key)
+//@   loop 2: modifies nothing
+//@   loop 2: invariant curr != nil && allocated(curr) && !curr.isLeaf && 0 <= i && i <= curr.KeysNum && t == old(t) && key == old(key)
 
 //@ spec func recOK(r *Record) bool = r != nil && r.H != nil && r.H.meta != nil && r.H.dataPos < 9223372036854775808
 //@ spec func ptrsOK(pointers []interface{}, m int) bool = forall k int :: 0 <= k && k < m ==> typeis(pointers[k], Record) && recOK(ifaceval(pointers[k], Record))
 
-//@ spec func leafRecs(t *BPTree) bool = forall n *Node, k int :: n != nil && n.isLeaf ==> allocated(n.pointers) &&
-//@        (0 <= k && k < n.KeysNum ==> typeis(n.pointers[k], Record) && recOK(ifaceval(n.pointers[k], Record)))
-//@ spec func leafChain(t *BPTree) bool = forall n *Node :: n != nil && n.isLeaf && typeis(n.pointers[order - 1], Node) && ifaceval(n.pointers[order - 1], Node) != nil ==>
-//@        ifaceval(n.pointers[order - 1], Node).isLeaf
-//@ spec func nodesOK(t *BPTree) bool = leafRecs(t) && leafChain(t)
+// Node invariant of the B+ tree, stated over all allocated nodes (not only the reachable ones):
+//   nodeShape: Keys has order-1 slots, pointers has order slots, 0 <= KeysNum <= order-1
+//   nodeOwn:   no two nodes share a Keys or pointers array
+//   leafRecs:  the first KeysNum pointers of a leaf hold well-formed records
+//   leafChain: the last pointer of a leaf is nil or an allocated leaf
+//   innerKids: the first KeysNum+1 pointers of an inner node hold allocated nodes (an inner node with no key is under construction)
+//   parentsOK: a parent pointer leads to an allocated inner node;  rootsOK: a root pointer leads to an allocated node
+// What is NOT part of it: key order inside and across nodes, separator keys, that a child is listed in its parent
+// (those stay with the bounded stand-in BS1).
+//@ spec func kidOK(p interface{}) bool = typeis(p, Node) && ifaceval(p, Node) != nil && allocated(ifaceval(p, Node))
+//@ spec func nodeShape() bool = forall n *Node :: allocated(n) ==> allocated(n.Keys) && off(n.Keys) == 0 && len(n.Keys) == order - 1 && allocated(n.pointers) && off(n.pointers) == 0 && len(n.pointers) == order && 0 <= n.KeysNum && n.KeysNum <= order - 1
+//@ spec func nodeOwn() bool = forall n1 *Node, n2 *Node :: allocated(n1) && allocated(n2) && n1 != n2 ==> arr(n1.Keys) != arr(n2.Keys) && arr(n1.pointers) != arr(n2.pointers)
+//@ spec func leafRecs(t *BPTree) bool = forall n *Node, k int :: allocated(n) && n.isLeaf && 0 <= k && k < n.KeysNum ==> typeis(n.pointers[k], Record) && recOK(ifaceval(n.pointers[k], Record))
+//@ spec func leafChain(t *BPTree) bool = forall n *Node :: allocated(n) && n.isLeaf && typeis(n.pointers[order - 1], Node) && ifaceval(n.pointers[order - 1], Node) != nil ==>
+//@        allocated(ifaceval(n.pointers[order - 1], Node)) && ifaceval(n.pointers[order - 1], Node).isLeaf
+//@ spec func innerKidsX(x *Node) bool = forall n *Node, k int :: allocated(n) && n != x && !n.isLeaf && 0 <= k && k <= n.KeysNum ==> kidOK(n.pointers[k])
+//@ spec func parentsOK() bool = forall n *Node :: allocated(n) && n.parent != nil ==> allocated(n.parent) && !n.parent.isLeaf
+//@ spec func rootsOK() bool = forall t *BPTree :: allocated(t) && t.root != nil ==> allocated(t.root)
+//@ spec func nodesOK(t *BPTree) bool = nodeShape() && nodeOwn() && leafRecs(t) && leafChain(t) && innerKidsX(nil) && parentsOK() && rootsOK()
 
 //@ func getRecordWrapper
 //@   requires 0 <= numFound && numFound <= len(pointers) && ptrsOK(pointers, numFound)
@@ -1120,6 +1386,7 @@ package nutsdb
 //@   ensures[C03] off >= 0 && (offsetNum >= 0 ==> off <= offsetNum)
 //@   ensures[C03] err == nil && offsetNum >= 0 ==> off == offsetNum
 //@   modifies nothing
+//@   safety[C20] panics
 //@   loops 3
 //@   loop 1: modifies nothing
 //@   loop 1: invariant n == pre(n) && prefix == old(prefix) && 0 <= j && (forall k int :: 0 <= k && k < j ==> cmp(n.Keys[k], prefix) < 0)
@@ -1131,10 +1398,9 @@ package nutsdb
 //@   loop 2: invariant sinceLoop(keys)
 //@   loop 2: invariant sinceLoop(pointers)
 //@   loop 2: invariant[C20] 0 <= j && ptrsOK(pointers, numFound)
-//@   loop 2: invariant[C20] n != nil ==> n.isLeaf
-//@   loop 2: invariant[C20] leafRecs(t)
-//@   loop 2: invariant[C20] leafChain(t)
-//@   loop 3: invariant[C20] 0 <= i && n.isLeaf && nodesOK(t) && ptrsOK(pointers, numFound)
+//@   loop 2: invariant[C20] n != nil ==> allocated(n) && n.isLeaf
+//@   loop 2: invariant[C20] nodesOK(t)
+//@   loop 3: invariant[C20] 0 <= i && n != nil && allocated(n) && n.isLeaf && nodesOK(t) && ptrsOK(pointers, numFound)
 //@   loop 3: modifies elems(keys), elems(pointers)
 //@   loop 3: invariant prefix == old(prefix) && offsetNum == old(offsetNum) && limitNum == old(limitNum) && 0 <= coff && (offsetNum >= 0 ==> coff <= offsetNum) &&
 //@        0 <= numFound && numFound == len(keys) && numFound == len(pointers) && (limitNum > 0 ==> numFound < limitNum || (numFound == limitNum && !scanFlag)) && (numFound > 0 ==> coff >= offsetNum) &&
@@ -1152,6 +1418,7 @@ package nutsdb
 //@   ensures[C20] err == nil ==> recsOK(records)
 //@   ensures[C03] off >= 0 && (offsetNum >= 0 ==> off <= offsetNum)
 //@   modifies nothing
+//@   safety[C20] panics
 //@   loops 3
 //@   loop 1: modifies nothing
 //@   loop 1: invariant n == pre(n) && prefix == old(prefix) && 0 <= j && (forall k int :: 0 <= k && k < j ==> cmp(n.Keys[k], prefix) < 0)
@@ -1160,10 +1427,9 @@ package nutsdb
 //@        0 <= numFound && numFound == len(keys) && numFound == len(pointers) && (limitNum > 0 ==> numFound <= limitNum) && (numFound > 0 ==> coff >= offsetNum) &&
 //@        (limitNum > 0 && numFound == limitNum ==> !scanFlag) && sinceLoop(keys) && sinceLoop(pointers)
 //@   loop 2: invariant[C20] 0 <= j && ptrsOK(pointers, numFound)
-//@   loop 2: invariant[C20] n != nil ==> n.isLeaf
-//@   loop 2: invariant[C20] leafRecs(t)
-//@   loop 2: invariant[C20] leafChain(t)
-//@   loop 3: invariant[C20] 0 <= i && n.isLeaf && nodesOK(t) && ptrsOK(pointers, numFound)
+//@   loop 2: invariant[C20] n != nil ==> allocated(n) && n.isLeaf
+//@   loop 2: invariant[C20] nodesOK(t)
+//@   loop 3: invariant[C20] 0 <= i && n != nil && allocated(n) && n.isLeaf && nodesOK(t) && ptrsOK(pointers, numFound)
 //@   loop 3: modifies elems(keys), elems(pointers)
 //@   loop 3: invariant prefix == old(prefix) && offsetNum == old(offsetNum) && limitNum == old(limitNum) && rgx == pre(rgx) && rgx != nil && 0 <= coff && (offsetNum >= 0 ==> coff <= offsetNum) &&
 //@        0 <= numFound && numFound == len(keys) && numFound == len(pointers) && (limitNum > 0 ==> numFound < limitNum || (numFound == limitNum && !scanFlag)) && (numFound > 0 ==> coff >= offsetNum) &&
@@ -1210,7 +1476,7 @@ package nutsdb
 //@   safety[C14] locks
 //@   safety[C20] panics
 //@ func Tx.GetAll
-//@   requires txOK(tx) && (tx.db != nil ==> treesOK(tx.db))
+//@   requires txOK(tx) && (tx.db != nil ==> treesOK(tx.db) && nodesOK(nil))
 //@   requires tx.db != nil && tx.db.opt.EntryIdxMode == HintBPTSparseIdxMode ==> sparseOK(tx.db)
 //@   ensures[C12,C20] tx.db == nil ==> err == ErrTxClosed
 //@   ensures[C01] err == nil && tx.db.opt.EntryIdxMode != HintBPTSparseIdxMode ==> len(entries) > 0
@@ -1218,7 +1484,7 @@ package nutsdb
 //@   safety[C14] locks
 //@   safety[C20] panics
 //@ func Tx.RangeScan
-//@   requires txOK(tx) && (tx.db != nil ==> treesOK(tx.db) && tx.db.ActiveBPTreeIdx != nil)
+//@   requires txOK(tx) && (tx.db != nil ==> treesOK(tx.db) && tx.db.ActiveBPTreeIdx != nil && nodesOK(nil))
 //@   requires tx.db != nil && tx.db.opt.EntryIdxMode == HintBPTSparseIdxMode ==> sparseOK(tx.db)
 //@   ensures[C12,C20] tx.db == nil ==> err == ErrTxClosed
 //@   ensures[C01,C02] err != nil ==> es == nil
@@ -1514,7 +1780,7 @@ package nutsdb
 //@   ensures[C13] err == nil ==> string(b) == string(old(tx.db.ListIdx[bucket].Items[string(key)][1]))
 //@   modifies everything
 //@ func verifScenarioPutThenGet
-//@   requires txOK(tx) && tx.db != nil && treesOK(tx.db) && tx.writable && len(key) > 0 && tx.db.opt.EntryIdxMode == HintKeyValAndRAMIdxMode
+//@   requires txOK(tx) && tx.db != nil && treesOK(tx.db) && nodesOK(nil) && tx.writable && len(key) > 0 && tx.db.opt.EntryIdxMode == HintKeyValAndRAMIdxMode
 //@   requires !has(tx.db.BPTreeIdx, bucket)
 //@   ensures[C13] len(tx.pendingWrites) > old(len(tx.pendingWrites)) ==> err == nil
 //@   modifies everything
@@ -1591,6 +1857,7 @@ package nutsdb
 //@   loop 1: modifies nothing
 //@   loop 1: invariant -1 <= rangeindex && rangeindex < len(tx.db.BPTreeRootIdxes) && tx == old(tx) && tx.db == old(tx.db) && sinceLoop(bptSparseIdxGroup) &&
 //@        (forall k int :: 0 <= k && k < len(bptSparseIdxGroup) ==> bptSparseIdxGroup[k] != nil)
+//@   loop 1: invariant nodesOK(nil)
 //@   loop 2: modifies lastReadOff
 //@   loop 2: invariant -1 <= rangeindex@2 && rangeindex@2 < len(bptSparseIdxGroup) && tx == old(tx) && tx.db == old(tx.db) && bptSparseIdxGroup == pre(bptSparseIdxGroup) && key == old(key) && newKey == pre(newKey) &&
 //@        (forall k int :: 0 <= k && k < len(bptSparseIdxGroup) ==> bptSparseIdxGroup[k] != nil) && sparseOK(tx.db)
@@ -1769,7 +2036,7 @@ package nutsdb
 //@   pure
 
 //@ func DB.getRecordFromKey
-//@   requires db != nil && treesOK(db)
+//@   requires db != nil && treesOK(db) && nodesOK(nil)
 //@   ensures[C15] err != nil ==> record == nil
 //@   ensures[C15] record != nil ==> has(db.BPTreeIdx, string(bucket)) && record.H != nil && record.H.meta != nil
 //@   modifies nothing
@@ -1777,7 +2044,7 @@ package nutsdb
 //@   safety[C20] panics
 
 //@ func DB.getPendingMergeEntries
-//@   requires db != nil && entry != nil && entry.Meta != nil
+//@   requires db != nil && entry != nil && entry.Meta != nil && nodesOK(nil)
 //@   requires entsOK(pendingMergeEntries)
 //@   ensures[C15] entsOK(result) && len(result) >= len(pendingMergeEntries) && len(result) <= len(pendingMergeEntries) + 1
 //@   ensures[C15] forall k int :: 0 <= k && k < len(pendingMergeEntries) ==> result[k] == pendingMergeEntries[k]
@@ -1794,6 +2061,7 @@ package nutsdb
 //@   requires db != nil && lockMode == 0 && entsOK(pendingMergeEntries) && treesOK(db)
 //@   at entry: assume !db.closed ==> dbOK(db) && applicable(db) && db.opt.EntryIdxMode != HintBPTSparseIdxMode && (db.opt.SyncEnable ==> unsynced == 0)
 //@   at entry: assume forall k int :: 0 <= k && k < len(pendingMergeEntries) ==> recShape(pendingMergeEntries[k])
+//@   at entry: assume nodesOK(nil)
 //@   at return #1: bump rewrites
 //@   at return #6: bump rewrites
 //@   ensures[C15] result == nil ==> rewrites == old(rewrites) + 1
@@ -1801,6 +2069,7 @@ package nutsdb
 //@   ensures removes == old(removes) && treesOK(db) && (forall d *DataFile :: old(allocated(d)) ==> d.rwManager == old(d.rwManager))
 //@   ensures result == nil ==> db.isMerging == old(db.isMerging)
 //@   ensures[C14,C15,C17] lockMode == 0
+//@   ensures[C20] nodesOK(nil)
 //@   modifies everything
 //@   safety[C17] locks
 //@   safety[C20] panics
@@ -1808,12 +2077,13 @@ package nutsdb
 //@   loop 1: invariant -1 <= rangeindex && rangeindex < len(pendingMergeEntries) && db == old(db) && tx != nil && tx.db == db && tx.writable && lockMode == 2 && pendingOK(tx) &&
 //@        pendingMergeEntries == old(pendingMergeEntries) && entsOK(pendingMergeEntries) && tx.ReservedStoreTxIDIdxes != nil && rewrites == old(rewrites) && fresh(tx.pendingWrites)
 //@   loop 1: invariant dbOK(db) && applicable(db) && db.opt.EntryIdxMode != HintBPTSparseIdxMode && (db.opt.SyncEnable ==> unsynced == 0) && treesOK(db) && removes == old(removes) && db.isMerging == old(db.isMerging)
+//@   loop 1: invariant[C20] nodesOK(nil)
 //@   loop 1: invariant forall d *DataFile :: old(allocated(d)) ==> d.rwManager == old(d.rwManager)
 //@   loop 1: invariant forall k int :: 0 <= k && k < len(pendingMergeEntries) ==> recShape(pendingMergeEntries[k])
 //@   at call put: assert[C15] $arg1 == string(e.Meta.bucket) && $arg2 == e.Key && $arg3 == e.Value && $arg4 == e.Meta.TTL && $arg5 == e.Meta.Flag && $arg6 == e.Meta.timestamp && $arg7 == e.Meta.ds
 
 //@ func DB.Merge
-//@   requires db != nil && lockMode == 0 && treesOK(db)
+//@   requires db != nil && lockMode == 0 && treesOK(db) && nodesOK(nil)
 //@   ensures[C14,C15,C17] lockMode == 0
 //@   ensures[C15] db.isMerging ==> old(db.isMerging)
 //@   modifies everything
@@ -1821,6 +2091,8 @@ package nutsdb
 //@   safety[C20] panics
 //@   loops 2
 //@   loop 1: invariant -1 <= rangeindex && rangeindex < len(pendingMergeFIds) && db == old(db) && lockMode == 0 && rewrites - removes == old(rewrites - removes) && treesOK(db)
+//@   loop 1: invariant[C20] nodesOK(nil)
+//@   loop 2: invariant[C20] nodesOK(nil)
 //@   loop 2: invariant off >= 0 && db == old(db) && f != nil && f.rwManager != nil && lockMode == 0 && entsOK(pendingMergeEntries) &&
 //@        pendingMergeFId == pendingMergeFIds[rangeindex] && 0 <= rangeindex && rangeindex < len(pendingMergeFIds) && rewrites - removes == old(rewrites - removes) && treesOK(db)
 //@   at call Remove: assert[C10,C11,C15] rewrites - removes == old(rewrites - removes) + 1
@@ -1843,12 +2115,14 @@ package nutsdb
 //@   ensures !tx.writable ==> len(tx.pendingWrites) == old(len(tx.pendingWrites))
 //@   ensures old(applicable(tx.db)) ==> applicable(tx.db)
 //@   ensures old(treesOK(tx.db)) ==> treesOK(tx.db)
+//@   ensures old(nodesOK(nil)) ==> nodesOK(nil)
 //@   modifies tx.pendingWrites, elems(tx.pendingWrites), lastReadOff
 
 //@ func DB.managed
 //@   requires db != nil && lockMode == 0
 //@   at entry: assume !db.closed ==> dbOK(db) && applicable(db) && treesOK(db) && (db.opt.SyncEnable ==> unsynced == 0) &&
 //@        (db.opt.EntryIdxMode == HintBPTSparseIdxMode ==> db.ActiveBPTreeIdx != nil && db.ActiveCommittedTxIdsIdx != nil && db.bucketMetas != nil)
+//@   at entry: assume nodesOK(nil)
 //@   ensures[C12,C14,C17] lockMode == 0
 //@   modifies everything
 //@   safety[C14] locks
